@@ -9,7 +9,7 @@ use any_vec::traits::{Cloneable, Trait};
 use any_vec::{AnyVec, AnyVecTyped, SatisfyTraits};
 
 use crate::elem::Elem;
-use crate::track::{Track, TrackFence, TrackFixed, TrackTight};
+use crate::track::{Track, TrackFence, TrackFixed, TrackTight, TrackWarm};
 use crate::types::CapCall;
 
 #[derive(Clone, Copy, Debug, PartialEq, Eq)]
@@ -111,6 +111,14 @@ impl MX for Track {
     type Aux = Track;
     fn make() -> Self { Track }
     fn name() -> String { "Track".into() }
+    resizable_impl!();
+}
+
+impl MX for TrackWarm {
+    const KIND: BK = BK::Track;
+    type Aux = Track;
+    fn make() -> Self { TrackWarm }
+    fn name() -> String { "TrackWarm".into() }
     resizable_impl!();
 }
 
